@@ -93,7 +93,7 @@ static Reg r_nnload("c13_nnload", [](const Args& a) {
   std::vector<Pt> p0 = points(7, 99); Euclid d; NN nn(p0, d, 2);
   int np0 = nn._numpoints; size_t ts0 = nn._tree.size();
   std::istringstream is(file, bin ? std::ios::binary : std::ios::in);
-  alarm(60);
+  arm(60);
   std::string e = guarded([&] { nn.Load(is, bin); });
   emit(e.empty() ? "1" : e == "!E" ? "0" : e);
   if (!e.empty() && e != "!E" && e != "!A") bad("foreign-exception", "NearestNeighbor::Load threw " + e);
@@ -107,7 +107,7 @@ static Reg r_nnfile("c13_nnfile", [](const Args& a) {
   bool bin = a[0] == "1"; std::string file = unhs(a[1]); uint64_t seed = std::strtoull(a[2].c_str(), nullptr, 10);
   std::vector<Pt> p0 = points(7, 99); Euclid d; NN nn(p0, d, 2);
   std::istringstream is(file, bin ? std::ios::binary : std::ios::in);
-  alarm(60);
+  arm(60);
   std::string e = guarded([&] { nn.Load(is, bin); });
   emit(e.empty() ? "1" : e == "!E" ? "0" : e);
   if (!e.empty() && e != "!E" && e != "!A") bad("foreign-exception", "NearestNeighbor::Load threw " + e);
@@ -185,6 +185,13 @@ inline void gen_nn(Rng& r, bool thorough) {
       case 4: if (bin && f.size() >= 40) { int v = r.pick(std::vector<int>{-1, 0, 11, np - 1, 3, 100000}); std::memcpy(&f[16 + 4 * size_t(r.irange(0, 5))], &v, 4); } break;   // header words (kept small: see report)
       default: f[size_t(r.irange(0, int(f.size()) - 1))] = char(r.next()); break;
       }
+    }
+    // F32 (open): binary Load never tests the stream, a header cut short leaves numpoints / treesize / cost uninitialised
+    // (hang or huge allocation, depending on stack garbage): two such images per process, in a child with a short limit
+    if (bin && f.size() < 40) {
+      static int ntrunc = 0;
+      if (ntrunc++ < 2) { stratum("nnfile-binary-truncated-header"); run_isolated("c13_nnfile", {"1", hs(f), std::to_string(pseed)}, 4); }
+      continue;
     }
     stratum(bin ? "nnfile-binary" : "nnfile-text");
     runx("c13_nnfile", {bin ? "1" : "0", hs(f), std::to_string(pseed)});
